@@ -310,8 +310,6 @@ Proof.
 Qed.
 
 (* ---- the value a record denotes ---- *)
-Definition msg_hinted (f : fdesc) : Prop := exists c', fhint f = HPlain (PyMsg c').
-
 Lemma wrapper_cls_builtin w wc : wrapper_cls w = Some wc -> In wc (seq 0 (length builtin_classes)).
 Proof.
   intros H. apply in_seq. destruct w; vm_compute in H; try discriminate; injection H as <-; vm_compute; lia.
